@@ -59,4 +59,17 @@ PROPS = {
         ],
         "trusted_base": ["Model/Stepper.v transcription of timesteps_measure_with_self and of the chunked while-loop of (parallel_)timesteps_sample"],
     },
+    "C10": {
+        "harness_cmd": "c10",
+        "property_files": ["C10.v"],
+        "expected_theorems": [
+            "C10_pair_swap_probability", "C10_clip_is_min", "C10_pair_outcomes", "C10_swap_moves_only_configuration",
+            "C10_shared_cutoff", "C10_equalise_only_grows", "C10_beta_factor",
+        ],
+        "assumptions": [
+            "J, Gamma, h, beta are dyadic so the quotients formed by relative_weight are compared with a 2^-40 tolerance only",
+            "ladders have >= 2 replicas (with one replica the rayon driver draws one container word the serial one does not; return values are equal)",
+        ],
+        "trusted_base": ["Model/Tempering.v transcription of tempering_step / perform_swaps / swap_on_chunks / relative_weight / HamInfo::eq"],
+    },
 }
